@@ -22,6 +22,9 @@ def cases(tier, seed):
     for P0u in ("yr", "day"):
         yield f"fcm/{P0u}", {"kind": "fcm", "P0u": P0u}
     yield "kipping", {"kind": "kipping"}
+    # the default period prior declared in other units: draws (as quantities) lie in the declared domain and are log-uniform on it
+    for pu in (("day", "day"), ("yr", "yr"), ("h", "day"), ("yr", "day")):
+        yield f"default-P/{pu}", {"kind": "default-P", "units": list(pu), "seed": int(seed) + 3}
     for gl in (False, True):
         for cK in (False, True):
             yield f"lnprior/{gl}/{cK}", {"kind": "lnprior", "generate_linear": gl, "customK": cK, "seed": int(seed) + 2}
@@ -76,6 +79,20 @@ def check(inp):
             if abs(got - want) > 1e-4 * want:
                 bad("FixedCompanionMass.dist", "variance-rule-with-cap", P=Pv, e=ev, got=got, want=want)
                 return fails
+        return fails
+    if inp["kind"] == "default-P":
+        from thejoker import JokerPrior
+        lo, hi = (3.0 * u.day).to(u.Unit(inp["units"][0])), (900.0 * u.day).to(u.Unit(inp["units"][1]))
+        prior = JokerPrior.default(P_min=lo, P_max=hi, sigma_K0=25 * u.km / u.s, sigma_v=50 * u.km / u.s)
+        smp = prior.sample(size=4000, rng=np.random.default_rng(inp["seed"]))
+        Pd = smp["P"].to_value(u.day)
+        if Pd.min() < 3.0 * (1 - 1e-9) or Pd.max() > 900.0 * (1 + 1e-9):
+            bad("default_nonlinear_prior", "period-draws-inside-the-declared-domain", lo=float(Pd.min()), hi=float(Pd.max()), declared=[str(lo), str(hi)])
+            return fails
+        F = np.sort((np.log(Pd) - math.log(3.0)) / math.log(300.0))
+        ks = float(np.max(np.abs(F - (np.arange(1, len(F) + 1) - 0.5) / len(F))))
+        if ks > 0.045:      # n = 4000: false-alarm probability < 1e-9
+            bad("default_nonlinear_prior", "period-draws-log-uniform-on-the-declared-domain", ks=ks)
         return fails
     if inp["kind"] == "kipping":
         from thejoker import distributions as D
